@@ -135,6 +135,9 @@ func runC14(ctx *h.Ctx) int {
 			if rerr == nil && !spec.AnyUnmatched(prog, prog.Switches) {
 				debugReject(pr.Src, res.ErrString())
 				k.Count("unexpected_rejections", 1)
+				// every generated list is valid (multipliers 1..9999, every poryswitch has a matching case):
+				// rejecting it emits nothing at all
+				k.Violation("valid-list-rejected", fmt.Sprintf("a file of valid movement / mart lists (all multipliers within 1..9999) is rejected: %s", res.ErrString()), nil)
 			}
 			return
 		}
